@@ -141,6 +141,10 @@ def mass_rename(root):
                     visit_AsyncFunctionDef = visit_FunctionDef
 
                     def visit_Lambda(s, node):
+                        # free names of a lambda that are locals of the function are renamed with them (its own parameters are not)
+                        own = {a.arg for a in node.args.args + node.args.kwonlyargs}
+                        inner = R({k: v for k, v in s.mapping.items() if k not in own})
+                        node.body = inner.visit(node.body)
                         return node
                 return R(mapping).visit(fn)
             visit_AsyncFunctionDef = visit_FunctionDef
